@@ -20,174 +20,121 @@ def variants_of(pat):
     return out
 
 
-def classify_outcome(prog, body, canon_name):
-    """outcome of one serialization arm: ('some', canonical_role, serialized_role) | ('none',) | ('panic',) | ('value', role)"""
-    b = core.strip(body)
-    # explicit return?
-    rets = [x for x in core.walk(body) if x.get("k") == "Ret" and core.as_try(x) is None]
-    macro = [x for x in core.walk(body) if x.get("k") == "Call" and (x.get("x") or "").find("unimplemented") >= 0]
-    if macro:
-        return ("panic",)
-    target = core.strip(rets[0]["e"]) if rets else b
-    while target.get("k") == "Block" and "expr" in target["b"]:
-        target = core.strip(target["b"]["expr"])
-
-    def role(e):
-        e = core.strip(e)
-        if e.get("k") == "Path" and e.get("res") == "local":
-            return e["name"]
-        if e.get("k") == "Path":
-            return vname(e.get("def"))
-        if e.get("k") == "Call":
-            f = e["f"].get("def", "")
-            if f.endswith("Option::Some") and e["args"]:
-                return role(e["args"][0])
-            if f.endswith("find_serialized_from_canonical"):
-                return "FSFC"
-        if e.get("k") == "MethodCall" and e["m"] in ("unwrap", "expect"):
-            r = core.strip(e["recv"])
-            if r.get("k") == "MethodCall" and r["m"] == "get":
-                return "lookup(" + core.fingerprint(r["args"][0], 2).split(".")[0] + ")"
-        return core.fingerprint(e, 3)
-    if target.get("k") == "Path" and (target.get("def") or "").endswith("Option::None"):
-        return ("none",)
-    if target.get("k") == "Call" and (target["f"].get("def") or "").endswith("Option::Some"):
-        inner = core.strip(target["args"][0])
-        if inner.get("k") == "Tup" and len(inner["args"]) == 2:
-            return ("some", role(inner["args"][0]), role(inner["args"][1]))
-        if inner.get("k") == "Struct":
-            f = {x["f"]: x["e"] for x in inner["fields"]}
-            return ("some", role(f["canonical"]), role(f["serialized"]))
-        return ("value", role(inner))
-    return ("value", role(target))
+def term_contains(t, atom):
+    if t == atom:
+        return True
+    if isinstance(t, tuple):
+        return any(term_contains(x, atom) for x in t)
+    return False
 
 
-def resolve_local(body_block, name, depth=4):
-    """resolve a local's let-initialiser role inside an arm body (e.g. serialized_descriptor = lookup(serialized_name))"""
-    for st in core.walk_lets(body_block):
-        if st["pat"].get("name") == name and "init" in st:
-            e = core.strip(st["init"])
-            if e.get("k") == "MethodCall" and e["m"] in ("unwrap", "expect"):
-                r = core.strip(e["recv"])
-                if r.get("k") == "MethodCall" and r["m"] == "get":
-                    return "lookup"
-            if e.get("k") == "Call" and (core.callee(e) or "").endswith("find_serialized_from_canonical"):
-                return "FSFC"
-    return None
+def extract_sym(prog, fn):
+    """The (kind x serialization) outcome table of a find_property_descriptors copy, by *running it symbolically* on
+    one concrete scenario per row (sa.sym): the descriptor found under the queried name, the alias target and the
+    SerializesAs target are tagged struct values handed out by a model of `properties.get(..)`; workspace helpers are
+    inlined by the interpreter, so how the body is split into functions, match vs if-let, early returns etc. do not
+    matter.  Rows: ('Canonical', sv) / ('Alias', sv) / ('Alias', '<target not canonical>') / ('<other kind>', '')."""
+    import re as _re
+    from sa import sym, wire
+    PD = "rbx_reflection::database::PropertyDescriptor"
+    CD = "rbx_reflection::database::ClassDescriptor"
+    C = sym.C
+    svs = [v["name"] for v in prog.adt(PS)["variants"]]
 
+    def ser_term(sv, tag):
+        if sv == "SerializesAs":
+            return sym.var(PS + "::SerializesAs", ("in", f"sername:{tag}"))
+        if sv == "Migrate":
+            return sym.var(PS + "::Migrate", ("in", f"migration:{tag}"))
+        return sym.var(PS + "::" + sv)
 
-def ser_table(prog, match_node, descr_role):
-    """{serialization variant: outcome} for a match on a PropertySerialization"""
-    out = {}
-    for arm in match_node["arms"]:
-        oc = classify_outcome(prog, arm["body"], descr_role)
-        oc = tuple(("lookup" if isinstance(x, str) and (x.startswith("lookup(") or resolve_local(arm["body"], x) == "lookup") else x) for x in oc)
-        for v in variants_of(arm["pat"]):
-            out.setdefault(v, oc)
-    return out
+    def kind_term(kind, sv, tag):
+        if kind == "Canonical":
+            return ("varn", PK + "::Canonical", (("serialization", ser_term(sv, tag)),))
+        if kind == "Alias":
+            return ("varn", PK + "::Alias", (("alias_for", ("in", "aliasname")),))
+        return sym.var(PK + "::" + kind)
 
+    def desc(tag, kind):
+        return ("st", PD, (("name", C(tag)), ("kind", kind), ("data_type", ("in", "dt:" + tag)), ("scriptability", ("in", "s")), ("tags", ("in", "t"))))
 
-def extract(prog, fn, helper=None):
-    """table[(kind branch: 'Canonical'|'Alias', ser variant)] = normalised outcome (canonical role, serialized role)
-       roles: 'found' (the descriptor met under the queried name), 'target' (the alias target), 'lookup' (same-class lookup
-       of the SerializesAs name), None."""
-    # the match on the found descriptor's kind
-    top = None
-    for n in core.walk_fn(fn):
-        if n.get("k") == "Match" and n.get("src") == "Normal":
-            ty = (n["e"].get("aty") or n["e"].get("ty") or "")
-            if PK in ty and top is None:
-                top = n
-    if top is None:
-        raise core.AnchorMissing(f"{fn.path}: match on PropertyKind not found")
-    found_name = None
-    sc = core.strip(top["e"])
-    if sc.get("k") == "Field":
-        found_name = core.strip(sc["e"]).get("name")
+    def run(found_kind, target_kind):
+        FOUND = desc("found", found_kind)
+        TARGET = desc("target", target_kind) if target_kind is not None else None
+        CLASS = ("st", CD, (("name", ("in", "class_name")), ("properties", ("in", "props")), ("superclass", sym.var(sym.NONE)), ("tags", ("in", "ct")), ("default_properties", ("in", "dp"))))
+
+        def p_get(I, n, path, arg_nodes, env):
+            recv = I.eval(arg_nodes[0], env)
+            key = I.eval(arg_nodes[1], env)
+            if recv == ("in", "props"):
+                if term_contains(key, ("in", "sername:found")):
+                    return sym.var(sym.SOME, desc("lookup", ("in", "kind:lookup")))
+                if term_contains(key, ("in", "sername:target")):
+                    return sym.var(sym.SOME, desc("lookup", ("in", "kind:lookup")))
+                if term_contains(key, ("in", "aliasname")):
+                    return sym.var(sym.SOME, TARGET) if TARGET is not None else sym.var(sym.NONE)
+                return sym.var(sym.SOME, FOUND)
+            if recv[0] == "fld" and recv[2] == "classes":
+                return sym.var(sym.SOME, CLASS)
+            return ("app", path, (recv, key))
+        prims = [(_re.compile(r"HashMap::<K, V, S(, A)?>::get$"), p_get)]
+        env = {prm["lid"]: ("in", prm["name"]) for prm in fn.params}
+        I, val, ex = wire.run_region(prog, fn.body, env, prims, depth=8)
+        return val, ex
+
+    def outcome(val, ex):
+        if ex is not None and ex.kind != "return":
+            return ("panic",)
+        v = val
+        if v is None:
+            return ("?",)
+        if sym.is_var(v, sym.ERR) or v == ("var", sym.ERR, ("panic",)):
+            return ("panic",)
+        if sym.is_var(v, sym.NONE):
+            return ("none",)
+        if sym.is_var(v, sym.SOME):
+            inner = v[2][0]
+
+            def role(t):
+                if sym.is_var(t, sym.NONE):
+                    return None
+                if sym.is_var(t, sym.SOME):
+                    return role(t[2][0])
+                if t[0] == "st" and t[1] == PD:
+                    return dict(t[2])["name"][1]
+                return "?" + sym.term_str(t, 3)
+            if inner[0] == "tup" and len(inner[1]) == 2:
+                return ("some", role(inner[1][0]), role(inner[1][1]))
+            if inner[0] == "st":
+                f = dict(inner[2])
+                if "canonical" in f and "serialized" in f:
+                    return ("some", role(f["canonical"]), role(f["serialized"]))
+        return ("?" + sym.term_str(v, 4),)
+
     table = {}
-    other_kind = None
-    for arm in top["arms"]:
-        kinds = variants_of(arm["pat"])
-        for kind in kinds:
-            if kind == "Canonical":
-                st = find_ser_table(prog, fn, arm["body"], helper)
-                for sv, oc in st.items():
-                    table[("Canonical", sv)] = normalise(oc, found_name, None)
-            elif kind == "Alias":
-                # the alias target
-                tgt = None
-                for s2 in core.walk_lets(arm["body"]):
-                    e = core.strip(s2.get("init", {})) if "init" in s2 else {}
-                    if e.get("k") == "MethodCall" and e["m"] in ("unwrap", "expect") and core.strip(e["recv"]).get("m") == "get":
-                        tgt = s2["pat"].get("name")
-                        break
-                # the branch on the target's kind: `if let Canonical{..} = &target.kind {..} else {..}` or `match &target.kind`
-                st = None
-                non_canon = None
-                for n2 in core.walk(arm["body"]):
-                    if n2.get("k") == "If" and core.strip(n2["c"]).get("k") == "LetExpr":
-                        le = core.strip(n2["c"])
-                        if PK in (le["init"].get("aty") or le["init"].get("ty") or "") and "Canonical" in variants_of(le["pat"]):
-                            st = find_ser_table(prog, fn, n2["t"], helper)
-                            non_canon = classify_outcome(prog, n2["f"], tgt) if "f" in n2 else ("fallthrough",)
-                    if n2.get("k") == "Match" and n2.get("src") == "Normal" and PK in (n2["e"].get("aty") or n2["e"].get("ty") or "") and n2 is not top:
-                        for a3 in n2["arms"]:
-                            ks = variants_of(a3["pat"])
-                            if "Canonical" in ks:
-                                st = find_ser_table(prog, fn, a3["body"], helper)
-                            else:
-                                non_canon = classify_outcome(prog, a3["body"], tgt)
-                if st is None:
-                    raise core.AnchorMissing(f"{fn.path}: Alias arm does not branch on the target's kind")
-                for sv, oc in st.items():
-                    table[("Alias", sv)] = normalise(oc, found_name, tgt)
-                table[("Alias", "<target not canonical>")] = normalise(non_canon or ("fallthrough",), found_name, tgt)
-            else:
-                other_kind = classify_outcome(prog, arm["body"], None)
-                table[("<other kind>", "")] = normalise(other_kind, found_name, None)
+    problems = []
+
+    def attempt(key, fk, tk):
+        try:
+            val, ex = run(fk, tk)
+        except sym.Unsupported as e:
+            if "no feasible match arm" in str(e):
+                return      # no arm for a variant outside the declared ones: row absent
+            problems.append((key, str(e)))
+            return
+        except sym.Exit as e:
+            table[key] = ("panic",) if e.kind == "err" else ("?",)
+            return
+        table[key] = outcome(val, ex)
+    for sv in svs + ["_"]:
+        s_ = sv if sv != "_" else "__Unlisted"
+        attempt(("Canonical", sv), kind_term("Canonical", s_, "found"), None)
+        attempt(("Alias", sv), kind_term("Alias", None, "found"), kind_term("Canonical", s_, "target"))
+    attempt(("Alias", "<target not canonical>"), kind_term("Alias", None, "found"), kind_term("Alias", None, "target"))
+    attempt(("<other kind>", ""), kind_term("__Unlisted", None, "found"), None)
+    if problems:
+        raise core.AnalysisError(f"{fn.path}: outside the symbolic model: {problems[:2]}")
     return table
-
-
-def find_ser_table(prog, fn, body, helper):
-    for n in core.walk(body):
-        if n.get("k") == "Match" and n.get("src") == "Normal" and PS in (n["e"].get("aty") or n["e"].get("ty") or ""):
-            return ser_table(prog, n, None)
-    # through the helper
-    for n in core.walk(body):
-        if n.get("k") == "Call" and helper is not None and core.callee(n) == helper.path:
-            # helper(class, canonical, serialization): returns serialized; the caller wraps Some{canonical: arg1, serialized}
-            hm = tables.top_match(helper)
-            ht = ser_table(prog, hm, None)
-            canon_arg = core.strip(n["args"][1]).get("name")
-            out = {}
-            for sv, oc in ht.items():
-                # helper outcomes are ('value', role) or ('none',)
-                if oc[0] == "value":
-                    r = oc[1]
-                    r = canon_arg if r == helper.params[1].get("name") else r
-                    out[sv] = ("some", canon_arg, r)
-                elif oc[0] == "none":
-                    out[sv] = ("some", canon_arg, None)
-                else:
-                    out[sv] = oc
-            return out
-    raise core.AnchorMissing(f"{fn.path}: no match on PropertySerialization in the Canonical branch")
-
-
-def normalise(oc, found_name, target_name):
-    def r(x):
-        if x is None:
-            return None
-        if x == found_name:
-            return "found"
-        if target_name is not None and x == target_name:
-            return "target"
-        if x == "lookup":
-            return "lookup"
-        return x
-    if oc[0] == "some":
-        return ("some", r(oc[1]), r(oc[2]))
-    return oc
 
 
 def evaluate(table, d, cls, name):
@@ -242,10 +189,9 @@ def rule_desc(c, prog):
     R = "C06.desc"
     c.rule(R, "sibling agreement of rbx_binary::core::find_property_descriptors (+ find_serialized_from_canonical) and rbx_xml::core::find_property_descriptors: equal (kind x serialization) outcome tables except the declared DoesNotSerialize difference, and equal (canonical, serialized) descriptors on every class x visible property name of the bundled database")
     bf = prog.fn("rbx_binary::core::find_property_descriptors")
-    bh = prog.fn("rbx_binary::core::find_serialized_from_canonical")
     xf = prog.fn("rbx_xml::core::find_property_descriptors")
-    bt = extract(prog, bf, bh)
-    xt = extract(prog, xf, None)
+    bt = extract_sym(prog, bf)
+    xt = extract_sym(prog, xf)
     c.sample({"rule": R, "binary_table": {f"{k[0]}/{k[1]}": str(v) for k, v in sorted(bt.items())}, "xml_table": {f"{k[0]}/{k[1]}": str(v) for k, v in sorted(xt.items())}})
     declared = {"DoesNotSerialize": "binary returns the canonical descriptor with no serialized form, XML returns None; both readers/writers then drop the property",
                 "_": "wildcard over the non_exhaustive enum: binary returns no serialized form, XML has `unimplemented!()` (dead: C16.oblig)",
